@@ -153,6 +153,10 @@ func (e *SEnv) closedMapFacts(m Val) {
 		f = append(f, app("=", app("msum", d, vv), "0"))
 	}
 	st.assume(implies(app("=", m.T, "0"), and(f...)))
+	if vs == "Int" {
+		st.assume(fmt.Sprintf("(=> (= (msum %s %s) 0) (forall ((k Int)) (! (=> (select %s k) (<= (select %s k) 0)) :pattern ((select %s k)))))", d, vv, d, vv, vv))
+		st.assume(fmt.Sprintf("(=> (forall ((k Int)) (=> (select %s k) (= (nn (select %s k)) 0))) (= (msum %s %s) 0))", d, vv, d, vv))
+	}
 	if vt != nil {
 		if _, _, ok := intRange(vt); ok {
 			st.assume(fmt.Sprintf("(forall ((k Int)) (! (=> (select %s k) %s) :pattern ((select %s k))))", d, inRange(app("select", vv, "k"), vt), vv))
@@ -546,6 +550,10 @@ func (e *SEnv) evalCallSX(sx *SX) Val {
 			return Val{T: app("sl_"+sx.Name, a.T), S: "Int"}
 		case a.G != nil && mapValType(a.G) != nil && sx.Name == "len":
 			d, _, _, _ := x.mapParts(e.st, a)
+			if len(e.bound) == 0 {
+				e.st.assume(fmt.Sprintf("(= (= (mcard %s) 0) (forall ((k Int)) (! (not (select %s k)) :pattern ((select %s k)))))", d, d, d))
+				e.st.assume(app(">=", app("mcard", d), "0"))
+			}
 			return Val{T: app("mcard", d), S: "Int"}
 		case a.G != nil && chanElem(a.G) != nil && sx.Name == "cap":
 			return Val{T: app("chancap", a.T), S: "Int"}
@@ -685,6 +693,29 @@ func (e *SEnv) evalCallSX(sx *SX) Val {
 		e.st.assume(fmt.Sprintf("(forall ((j Int)) (! (= (select %s j) (ite (and (<= %s j) (< j (+ %s %s))) %s (select %s j))) :pattern ((select %s j))))",
 			c, n.T, n.T, app("sl_len", sl.T), at.T, q.T, c))
 		return Val{T: c, S: q.S}
+	case "pset":
+		// pset(s, n): the set of the first n elements of the integer slice s
+		if !argn(2) {
+			break
+		}
+		sl := e.eval(sx.Args[0])
+		n := e.eval(sx.Args[1])
+		if sl.S != "Slice" {
+			return e.fail(sx, "pset of non-slice")
+		}
+		a := x.arrComp(e.st, "Int")
+		inner := app("select", a.T, app("sl_arr", sl.T))
+		off := app("sl_off", sl.T)
+		t := app("pset", inner, off, n.T)
+		if !strings.Contains(inner+off+n.T, "q_") {
+			st := e.factSt
+			if st == nil {
+				st = e.st
+			}
+			st.assume(fmt.Sprintf("(forall ((j Int)) (! (=> (and (<= 0 j) (< j %s)) (select %s (select %s (at %s j)))) :pattern ((select %s (at %s j)))))", n.T, t, inner, off, inner, off))
+			st.assume(fmt.Sprintf("(forall ((k Int)) (! (=> (select %s k) (exists ((j Int)) (and (<= 0 j) (< j %s) (= (select %s (at %s j)) k)))) :pattern ((select %s k))))", t, n.T, inner, off, t))
+		}
+		return Val{T: t, S: "(Array Int Bool)"}
 	case "lsum":
 		// lsum(s, n): sum of the first n elements of slice s
 		if !argn(2) {
